@@ -211,8 +211,35 @@ def removed_phase(run, d, bins, cases_unused):
     run.cov["of_which_with_causaloids_added_after_the_removals"] = sum(1 for c in cases if c.fam == "causalrm2")
 
 
+def empty_phase(run, d, bins, cases_unused):
+    """EMPTY collections in every container: a recount over no members says all-active (vacuously), 0 active; reasoning is refused.
+    The Coq model is for non-empty collections; the recount oracle is applied to the implementation's own output"""
+    removed_phase(run, d, bins, None)
+    rng = run.rng
+    cases = []
+    for cont in (0, 1, 2, 3, 4):
+        data = [10 * k + 1 for k in range(14)]
+        cases.append(Case("causal", [1, 40 + cont, 0], [tuple(call(4, 0, 0, None, data)), tuple(call(5, 0, 0, None, data))], {"cont": cont}))
+    def oracle(case, impl, spec):
+        try:
+            toks = [int(t) for t in impl.split()]
+        except ValueError:
+            return f"unparsable output {impl[:60]!r}"
+        a = case.ints(); top, p = parse_tree(a, 0); number(top); calls = parse_calls(a, p)
+        segs = split_out(toks, calls)
+        if segs is None: return "output does not match the calls"
+        for i, sg in enumerate(segs):
+            r = oracle_recount(top, sg)
+            if r: return f"empty collection, after call {i}: {r}"
+            if sg["res"] == 1: return f"empty collection: call {i} answered true (nothing was evaluated)"
+        return None
+    d3 = Differential(run, bins, None, None, oracle=oracle, harness_head=lambda c: "causal_%d" % c.meta["cont"], nontrivial=lambda c: True)
+    d3.process(cases); d3.finish()
+    run.cov["empty_collections"] = len(cases)
+
+
 def main():
-    run_property("C11", PROPS, gen_cases, CHECKS, RULE + " SECOND PHASE: graphs of singletons from which 1-2 causaloids were removed again (remove_causaloid) before reasoning, a quarter of them built in a graph object that had held a bigger, fully active model and was cleared: wrapper-active and the aggregates must equal a recount over the LIVE members (oracle on the implementation's own output; the Coq model covers add-only graphs)", cross=removed_phase)
+    run_property("C11", PROPS, gen_cases, CHECKS, RULE + " SECOND PHASE: graphs of singletons from which 1-2 causaloids were removed again (remove_causaloid) before reasoning, a quarter of them built in a graph object that had held a bigger, fully active model and was cleared: wrapper-active and the aggregates must equal a recount over the LIVE members (oracle on the implementation's own output; the Coq model covers add-only graphs). THIRD PHASE: empty collections in the five containers (recount over no members)", cross=empty_phase)
 
 
 _replay = mk_replay("C11", CHECKS)
